@@ -28,6 +28,9 @@ CLAIMED = {
  "C18": ("exploration", "before/after comparator on '!' bindings across every stride of hostile machines",
          "6e4/8e5 machines whose actions and guards delete, overwrite, keep-only, replace wholesale, return {}/null/non-objects, fail or reject are walked from states with 0-3 permanent bindings (scalar and structured); for every stride each permanent binding present before must be present and equal after (null-returning actions recorded, not judged).",
          "Which guard ran is derived from the reference step; native and ECMAScript renderings.", "DESIGN.md §4 C18"),
+ "C07": ("fault_enumeration", "panic trap + per-call watchdog + failure-surfacing checker in isolated child processes over an enumerated fault space",
+         "The cross product of 28 action/guard behaviours x {action, guard} x 5 error settings x 6 hostile states x 6 controls x 4 pendings x {Step, Walk} x renderings (complete in thorough, 1/3 per seed in quick), 45 targeted + random damaged JSON/YAML documents through three loaders, and odd native results are executed in child processes with every case logged first; a panic, fatal exit or call outstanding at the hard bound is a violation, and every injected failure must be surfaced as the reference step says.",
+         "Native actions do not panic themselves; with absent bindings only totality and surfacing of the action failure are judged; reference step from C04.", "DESIGN.md §4 C07"),
 }
 
 NOT_YET = "check not built yet in this session (planned: see DESIGN.md §4)"
